@@ -38,6 +38,11 @@ def regionCoords (r : Rectangle) : List (Int × Int) :=
   (intRange r.origin.y r.size.height).flatMap fun row =>
     (intRange r.origin.x r.size.width).map fun col => (col, row)
 
+/-- `for_each_in_region(c, r, callable)`: the argument triples `(container[column][row], column, row)`
+    the callable receives, in call order -/
+def Canvas.visits (c : Canvas) (r : Rectangle) : List (Element × Int × Int) :=
+  (regionCoords r).map fun p => (c.get p.1 p.2, p.1, p.2)
+
 /-- `canvas::resize(size)` -/
 def Canvas.resize (c : Canvas) (size : Extent) : Canvas :=
   let minW := min size.width c.size.width
